@@ -32,6 +32,8 @@ import numpy as np  # noqa: E402
 import common  # noqa: E402
 
 PROP = "C08"
+BUDGET_S = {"quick": 25, "thorough": 120}      # per exported model, all targets and bindings
+BIG_MODEL_BYTES = 16 << 20
 GEN_UNITS = ["GenShapes"]
 BINARY = ("Add", "Mul", "Sub", "Div", "Max", "Min", "Clip")
 
@@ -68,6 +70,8 @@ def _own_programs():
     P["o:reshape_add_const"] = (lambda x: jnp.reshape(x, (2, 3)) + np.ones((1, 1, 1), f32), [sds((6,))])
     P["o:cast_chain"] = (lambda x: (x.astype(jnp.int32) + 1).astype(jnp.float32) * 0.5, [sds((2, 3))])
     P["o:where_cmp"] = (lambda x, y: jnp.where(x > y, x, y * 2.0), [sds((3, 1)), sds((1, 4))])
+    P["o:sym_two_aranges"] = (lambda x: (jnp.arange(x.shape[1]), jnp.arange(x.shape[2])), [("B", "H", "W", 3)])
+    P["o:min_sym_const111"] = (lambda x: jnp.minimum(x, np.zeros((1, 1, 1), f32)), [("B",)])
     P["o:int_bcast"] = (lambda a, b: a[:, None] * b[None, :] + 1, [sds((3,), np.int32), sds((4,), np.int32)])
     return P
 
@@ -86,7 +90,7 @@ def own_names():
     return ["o:add_const11", "o:mul_npconst11", "o:add_npconst111_sin", "o:sym_add_npconst11", "o:scalar_plus_const11",
             "o:max_const11", "o:clip_consts", "o:transpose_add_transpose", "o:transpose_mul_const_relu",
             "o:sym_transpose_chain", "o:sym_broadcast_rows", "o:sym_bias", "o:sym_concat_self", "o:sym_mean_keepdims",
-            "o:reshape_add_const", "o:cast_chain", "o:where_cmp", "o:int_bcast"]
+            "o:reshape_add_const", "o:cast_chain", "o:where_cmp", "o:sym_two_aranges", "o:min_sym_const111", "o:int_bcast"]
 
 
 # ====================================================================== annotation snapshots (IR level)
@@ -238,13 +242,14 @@ def _rand_input(rs, code, shape):
     dt = _np_of(code)
     if dt is None:
         return None
+    u = np.asarray(rs.random_sample(tuple(shape)))
     if dt == np.bool_:
-        return rs.rand(*shape) > 0.5
+        return np.asarray(u > 0.5)
     if dt.kind in "iu":
-        return rs.randint(0, 2, size=shape).astype(dt)
+        return np.asarray(u * 2).astype(dt)
     if dt.kind == "c":
-        return (rs.rand(*shape) + 1j * rs.rand(*shape)).astype(dt)
-    return (rs.rand(*shape) * 0.8 + 0.1).astype(dt)
+        return (u + 1j * np.asarray(rs.random_sample(tuple(shape)))).astype(dt)
+    return (u * 0.8 + 0.1).astype(dt)
 
 
 def _strip_annotations(g):
@@ -323,6 +328,30 @@ def _make_target(label, model, g, loop_bodies):
     return _Target(label, model, inputs, table, producers, exposed)
 
 
+def _reachable_functions(m, f):
+    import onnx
+    by = {(x.domain, x.name): x for x in m.functions}
+    seen, todo = {}, [f]
+
+    def nodes_of(ns):
+        for n in ns:
+            yield n
+            for a in n.attribute:
+                if a.type == onnx.AttributeProto.GRAPH:
+                    yield from nodes_of(a.g.node)
+                elif a.type == onnx.AttributeProto.GRAPHS:
+                    for sg in a.graphs:
+                        yield from nodes_of(sg.node)
+    while todo:
+        cur = todo.pop()
+        for n in nodes_of(cur.node):
+            k = (n.domain, n.op_type)
+            if k in by and k not in seen:
+                seen[k] = by[k]
+                todo.append(by[k])
+    return list(seen.values())
+
+
 def _function_targets(m, loop_bodies=True):
     """every function body with value_info as a stand-alone model under its DECLARED input annotations"""
     import onnx
@@ -359,7 +388,7 @@ def _function_targets(m, loop_bodies=True):
             if o.domain not in seen:
                 seen.add(o.domain)
                 fm.opset_import.add().CopyFrom(o)
-        fm.functions.extend(m.functions)
+        fm.functions.extend(_reachable_functions(m, f))
         fm.graph.CopyFrom(g)
         out.append(_make_target(f"fn:{f.name}", fm, fm.graph, loop_bodies=loop_bodies))
     return out, skipped
@@ -462,7 +491,9 @@ def _run_target(t, binding, seed):
     so.intra_op_num_threads = 1
     so.inter_op_num_threads = 1
     try:
-        sess = ort.InferenceSession(t.model.SerializeToString(), so, providers=["CPUExecutionProvider"])
+        if getattr(t, "blob", None) is None:
+            t.blob = t.model.SerializeToString()
+        sess = ort.InferenceSession(t.blob, so, providers=["CPUExecutionProvider"])
     except Exception as e:  # noqa
         return "session-failed: " + str(e)[:200], None, None
     try:
@@ -572,10 +603,21 @@ def validate_model(model_bytes, key, tier, seed):
         notes += [f"function {n} not run: {w}" for n, w in skipped]
     except Exception as e:  # noqa
         notes.append("function targets: " + repr(e)[:200])
+    t_start = time.time()
+    budget = BUDGET_S.get(tier, 60)
+    big = len(model_bytes) > BIG_MODEL_BYTES
+    if big:
+        notes.append(f"large model ({len(model_bytes) >> 20} MiB): one binding per target")
     for t in targets:
+        if time.time() - t_start > budget:
+            notes.append(f"time budget ({budget}s) reached: target {t.label} and later not run")
+            stats["targets_skipped_budget"] = stats.get("targets_skipped_budget", 0) + 1
+            continue
         stats["targets"] += 1
         stats["function_targets"] += t.label != "main"
         binds = _bindings(_input_symbols(t.inputs), tier)
+        if big:
+            binds = binds[:1]
         for bi, b in enumerate(binds):
             stats["bindings"] += 1
             status, obs, _feed = _run_target(t, b, seed * 1000 + bi)
@@ -698,3 +740,503 @@ def run_corpus(n_registry, seed, tier, overrides=None, procs=None, extras=True, 
         if own:
             jobs += [("own", n, overrides, tier, seed) for n in own_names()]
         return p.map(_worker, jobs, chunksize=max(1, len(jobs) // (procs * 6)))
+
+
+# ====================================================================== (a) ties: translated / hand models vs the running Python
+COQ_DEFS = """From Coq Require Import ZArith String List Bool.
+Import ListNotations.
+Open Scope Z_scope.
+Set Printing Width 1000000.
+Set Printing Depth 1000000.
+Fixpoint bad_idx_ {A} (f : A -> bool) (i : nat) (l : list A) : list nat :=
+  match l with [] => [] | x :: r => if f x then bad_idx_ f (S i) r else i :: bad_idx_ f (S i) r end.
+From J2O Require Import Onnx Annot.
+From J2OGen Require Import GenShapes.
+Definition dim_eqb_ (a b : dim) : bool :=
+  match a, b with DInt x, DInt y => Z.eqb x y | DSym s, DSym t => String.eqb s t | DUnk, DUnk => true | _, _ => false end.
+Fixpoint dims_eqb_ (a b : list dim) : bool :=
+  match a, b with [], [] => true | x :: a', y :: b' => dim_eqb_ x y && dims_eqb_ a' b' | _, _ => false end.
+Definition odims_eqb_ (a b : option (list dim)) : bool :=
+  match a, b with Some x, Some y => dims_eqb_ x y | None, None => true | _, _ => false end.
+Definition tbl_ (t : list (string * option (list dim))) : string -> option (list dim) :=
+  fun v => match find (fun kv => String.eqb (fst kv) v) t with Some kv => snd kv | None => None end.
+"""
+
+
+def _cq(s):
+    return '"' + str(s).replace('"', '""') + '"%string'
+
+
+def enc_dim(d):
+    """a dim as stored by ir.Shape -> Gallina"""
+    if isinstance(d, (int, np.integer)):
+        return f"DInt ({int(d)})"
+    v = getattr(d, "value", d)
+    if v is None:
+        return "DUnk"
+    return f"DSym {_cq(v)}"
+
+
+def enc_dims(ds):
+    return "[" + "; ".join(enc_dim(d) for d in ds) + "]"
+
+
+def enc_odims(ds):
+    return "None" if ds is None else f"(Some {enc_dims(ds)})"
+
+
+def _shape_dims_of(shape):
+    import onnx_ir as ir
+    return None if shape is None else tuple(ir.Shape(list(shape)).dims)
+
+
+def eval_cases(ctx, name, typ, items, check, per_file=450):
+    """items: Gallina texts of type `typ`; check: Gallina predicate `typ -> bool`.  Returns (ok, bad indices, log)"""
+    def render(chunk, off):
+        return (f"Definition cs_ : list ({typ}) := [\n" + ";\n".join(chunk) + "].\n"
+                f"Eval vm_compute in bad_idx_ ({check}) 0 cs_.\n")
+    res = common.coq_eval_batches(ctx, name, COQ_DEFS, items, render, per_file=per_file)
+    bad, log, ok_all = [], "", True
+    for k, (ok, out) in enumerate(res):
+        idx = common.coq_bad_indices(out) if ok else None
+        if idx is None:
+            ok_all = False
+            log += out[-800:]
+        else:
+            bad += [k * per_file + i for i in idx]
+    return ok_all, bad, log
+
+
+DIM_POOL = [1, 2, 3, "B", "C", None]
+
+
+def _all_shapes(max_rank, pool=DIM_POOL):
+    import itertools
+    out = []
+    for r in range(max_rank + 1):
+        out += list(itertools.product(pool, repeat=r))
+    return out
+
+
+def tie_translated(ctx):
+    import itertools
+    import onnx_ir as ir
+    from jax2onnx.converter import ir_optimizations as opt
+    from jax2onnx.converter import ir_postprocess as post
+    rng = ctx.rng
+    n_rand = 1200 if ctx.tier == "quick" else 6000
+    # ---- _broadcast_shape_dims: all pairs of shapes up to rank 2, all triples of rank-1 shapes, random up to rank 3
+    sh2 = _all_shapes(2)
+    sh3 = _all_shapes(3)
+    combos = [[a, b] for a in sh2 for b in sh2]
+    combos += [[(a,), (b,), (c,)] for a, b, c in itertools.product(DIM_POOL, repeat=3)]
+    combos += [[]] + [[s] for s in sh2]
+    for _ in range(n_rand):
+        combos.append([rng.choice(sh3) for _ in range(rng.choice([2, 2, 3, 4]))])
+    items, py = [], []
+    for shapes in combos:
+        dims = [_shape_dims_of(s) for s in shapes]
+        r = opt._broadcast_shape_dims(dims)
+        py.append(r)
+        items.append("(" + "[" + "; ".join(enc_dims(d) for d in dims) + "], " + enc_odims(r) + ")")
+    ok, bad, log = eval_cases(ctx, "c08_bsd", "list (list dim) * option (list dim)", items,
+                              "fun c => odims_eqb_ (broadcast_shape_dims (fst c)) (snd c)")
+    ctx.oblige(f"tie:translated-_broadcast_shape_dims-equals-python({len(items)} cases)", ok and not bad, "tie",
+               log if not ok else ("" if not bad else f"differ on {[ (combos[i], str(py[i])) for i in bad[:4]]}"))
+    n_some = sum(1 for r in py if r is not None)
+    distinct = len({(tuple(map(tuple, c)), str(r)) for c, r in zip(combos, py)})
+    # ---- _dim_token equality, _dim_is_known, _normalize_dim on every dim kind (incl. the empty symbol)
+    dpool = [_shape_dims_of((d,))[0] for d in [0, 1, 2, 3, 7, "B", "C", "", None]]
+    it_tok = [f"({enc_dim(a)}, {enc_dim(b)}, {common.blit(opt._dim_token(a) == opt._dim_token(b))})" for a in dpool for b in dpool]
+    ok1, bad1, log1 = eval_cases(ctx, "c08_tok", "dim * dim * bool", it_tok,
+                                 "fun c => let '(a, b, r) := c in Bool.eqb (tok_eqb (dim_token a) (dim_token b)) r")
+    it_known = [f"({enc_dim(a)}, {common.blit(post._dim_is_known(a))}, {enc_dim(_shape_dims_of((post._normalize_dim(a),))[0])})" for a in dpool]
+    ok2, bad2, log2 = eval_cases(ctx, "c08_known", "dim * bool * dim", it_known,
+                                 "fun c => let '(a, k, n) := c in Bool.eqb (dim_is_known a) k && dim_eqb_ (normalize_dim a) n")
+    ctx.oblige(f"tie:translated-_dim_token/_dim_is_known/_normalize_dim-equal-python({len(it_tok) + len(it_known)} cases)",
+               ok1 and ok2 and not bad1 and not bad2, "tie", (log1 + log2) if not (ok1 and ok2) else f"bad {bad1[:5]} {bad2[:5]}")
+    # ---- _unknown_shape_like on values carrying every shape up to rank 3, both modes, and a value without shape
+    it_usl = []
+    for s in [None] + sh3:
+        for force in (False, True):
+            v = ir.Value(name="v", type=ir.TensorType(ir.DataType.FLOAT), shape=None if s is None else ir.Shape(list(s)))
+            r = post._unknown_shape_like(v, force_rank_only=force)
+            it_usl.append(f"({enc_odims(_shape_dims_of(s))}, {common.blit(force)}, {enc_odims(None if r is None else tuple(r.dims))})")
+    ok3, bad3, log3 = eval_cases(ctx, "c08_usl", "option (list dim) * bool * option (list dim)", it_usl,
+                                 "fun c => let '(d, f, r) := c in odims_eqb_ (unknown_shape_like d f) r")
+    ctx.oblige(f"tie:translated-_unknown_shape_like-equals-python({len(it_usl)} cases)", ok3 and not bad3, "tie",
+               log3 if not ok3 else f"bad {bad3[:5]}")
+    ctx.coverage["tie_translated"] = {"broadcast_cases": len(items), "broadcast_defined": n_some, "broadcast_distinct": distinct,
+                                      "token_pairs": len(it_tok), "dim_kinds": len(it_known), "unknown_shape_like_cases": len(it_usl)}
+    return len(items) + len(it_tok) + len(it_known) + len(it_usl), distinct
+
+
+# ---- refresh
+VAL_SHAPES = [None, (), (1,), (3,), ("B",), (None,), (1, 1), (2, 3), ("B", 3), (1, "B"), (None, 3), (2, 1, 3)]
+CONST_SHAPES = [(), (1,), (1, 1), (1, 1, 1), (2,), (1, 3), (2, 1)]
+
+
+def _mk_operand(ir, kind, shape, idx):
+    if kind == "val":
+        return ir.Value(name=f"v{idx}", type=ir.TensorType(ir.DataType.FLOAT), shape=None if shape is None else ir.Shape(list(shape)))
+    arr = np.arange(1, int(np.prod(shape, dtype=np.int64)) + 1, dtype=np.float32).reshape(shape)
+    return ir.val(f"c{idx}", ir.DataType.FLOAT, tuple(shape), const_value=ir.tensor(arr))
+
+
+def real_refresh(op, operands, out_shape):
+    """-> (out shape dims after the REAL _refresh_elementwise_output_shape, [is_scalar_const of each operand])"""
+    import onnx_ir as ir
+    from jax2onnx.converter import ir_optimizations as opt
+    vals = [_mk_operand(ir, k, s, i) for i, (k, s) in enumerate(operands)]
+    out = ir.Value(name="out", type=ir.TensorType(ir.DataType.FLOAT), shape=None if out_shape is None else ir.Shape(list(out_shape)))
+    node = ir.Node(op_type=op, domain="", inputs=vals, outputs=[out], name="n")
+    ir.Graph(name="g", inputs=[v for v, (k, _s) in zip(vals, operands) if k == "val"], outputs=[out], nodes=[node],
+             initializers=[v for v, (k, _s) in zip(vals, operands) if k == "const"], opset_imports={"": 21})
+    scal = [bool(opt._is_scalar_const_value(v)) for v in vals]
+    opt._refresh_elementwise_output_shape(node)
+    return (None if out.shape is None else tuple(out.shape.dims)), scal
+
+
+def probe_refresh_skips_scalars():
+    r, _ = real_refresh("Add", [("val", (3,)), ("const", (1, 1))], (1, 3))
+    return r is not None and len(r) == 1
+
+
+def enc_operand(kind, shape):
+    if kind == "val":
+        return f"(mkOp {enc_odims(_shape_dims_of(shape))} None false)"
+    return f"(mkOp {enc_odims(_shape_dims_of(shape))} (Some {int(np.prod(shape, dtype=np.int64))}%nat) true)"
+
+
+def tie_refresh(ctx, skip):
+    rng = ctx.rng
+    pool = [("val", s) for s in VAL_SHAPES] + [("const", s) for s in CONST_SHAPES]
+    cases = []
+    for a in pool:
+        for b in pool:
+            for out in (None, (7, 7)):
+                cases.append(("Add", [a, b], out))
+    for _ in range(500 if ctx.tier == "quick" else 3000):
+        cases.append((rng.choice(["Max", "Min", "Clip"]), [rng.choice(pool) for _ in range(3)], rng.choice([None, (7,), (1, 7)])))
+    for a in pool:
+        cases.append(("Relu", [a], (5,)))
+    items, exp, scal_bad = [], [], []
+    n_false = 0
+    for op, operands, out in cases:
+        r, scal = real_refresh(op, operands, out)
+        exp.append(r)
+        model_scal = [(k == "const" and int(np.prod(s, dtype=np.int64)) == 1) for k, s in operands]
+        if scal != model_scal:
+            scal_bad.append((op, operands, scal))
+        items.append("([" + "; ".join(enc_operand(k, s) for k, s in operands) + "], " + enc_odims(_shape_dims_of(out)) + ", " + enc_odims(r) + ")")
+    ok, bad, log = eval_cases(ctx, "c08_refresh", "list operand * option (list dim) * option (list dim)", items,
+                              f"fun c => let '(ins, out, r) := c in odims_eqb_ (refresh_gen {common.blit(skip)} ins out) r")
+    ctx.oblige(f"tie:model-refresh_gen({'unchanged' if skip else 'repaired'})-equals-_refresh_elementwise_output_shape({len(items)} nodes)",
+               ok and not bad and not scal_bad, "tie",
+               log if not ok else (f"differ on {[(cases[i], str(exp[i])) for i in bad[:4]]}; is_scalar_const differs on {scal_bad[:3]}" if (bad or scal_bad) else ""))
+    del n_false
+    return len(items)
+
+
+def tie_loosen(ctx):
+    import onnx_ir as ir
+    from jax2onnx.converter import ir_postprocess as post
+    rng = ctx.rng
+    shapes = [None, (), (3,), ("B",), (None,), (2, 3), ("B", 3), (None, "C"), (2, 1, 3)]
+    items = []
+    n = 300 if ctx.tier == "quick" else 1500
+    changed = 0
+    for k in range(n):
+        force = bool(k % 2)
+        def val(name):
+            s = rng.choice(shapes)
+            return ir.Value(name=name, type=ir.TensorType(ir.DataType.FLOAT), shape=None if s is None else ir.Shape(list(s)))
+        x, a, b, c = val("x"), val("a"), val("b"), val("c")
+        ws = rng.choice([(3,), (1, 3), ()])
+        w = ir.val("w", ir.DataType.FLOAT, ws, const_value=ir.tensor(np.zeros(ws, np.float32)))
+        nodes = [ir.Node(op_type="Relu", domain="", inputs=[x], outputs=[a], name="n0"),
+                 ir.Node(op_type="Add", domain="", inputs=[a, w], outputs=[b], name="n1"),
+                 ir.Node(op_type="Identity", domain="", inputs=[b], outputs=[c], name="n2")]
+        outs = rng.choice([[c], [b, c], [a, c]])
+        ins = rng.choice([[x], [x, w]])
+        g = ir.Graph(name="g", inputs=ins, outputs=outs, nodes=nodes, initializers=[w], opset_imports={"": 21})
+        allv = [x, a, b, c, w]
+        before = {v.name: (None if v.shape is None else tuple(v.shape.dims)) for v in allv}
+        post._loosen_graph_value_shapes(g, force_rank_only=force)
+        after = {v.name: (None if v.shape is None else tuple(v.shape.dims)) for v in allv}
+        changed += before != after
+        io = [v.name for v in ins + outs]
+        produced = ["a", "b", "c"] + (["w"] if force else [])
+        enc_t = lambda t: "[" + "; ".join(f"({_cq(nm)}, {enc_odims(s)})" for nm, s in t.items()) + "]"  # noqa: E731
+        items.append(f"([{'; '.join(_cq(i) for i in io)}], [{'; '.join(_cq(i) for i in produced)}], {common.blit(force)}, {enc_t(before)}, {enc_t(after)})")
+    ok, bad, log = eval_cases(ctx, "c08_loosen", "list string * list string * bool * list (string * option (list dim)) * list (string * option (list dim))",
+                              items, "fun c => let '(io, pr, f, t0, t1) := c in forallb (fun kv => odims_eqb_ (loosen io pr f (tbl_ t0) (fst kv)) (snd kv)) t1",
+                              per_file=150)
+    ctx.oblige(f"tie:model-loosen-equals-_loosen_graph_value_shapes({len(items)} graphs, {changed} changed)", ok and not bad and changed > 0, "tie",
+               log if not ok else f"bad {bad[:5]}")
+    return len(items)
+
+
+# ====================================================================== Coq checker on the converted exports
+def coq_annot_consistent(ctx, models):
+    """models: [(key, ModelProto bytes)] -> {key: (consistent, offenders, rule_applies, derived)}"""
+    import onnx
+    import onnx2coq
+    terms = []
+    for key, blob in models:
+        m = onnx.ModelProto()
+        m.ParseFromString(blob)
+        try:
+            terms.append((key, onnx2coq.model_term(m)))
+        except Exception as e:  # noqa
+            terms.append((key, None))
+            ctx.assumptions.append(f"onnx2coq failed on {key}: {e!r}"[:200])
+    terms = [t for t in terms if t[1] is not None]
+    header = ("From Coq Require Import ZArith String List Bool.\nFrom J2O Require Import Onnx Annot.\nImport ListNotations.\n"
+              "Set Printing Width 1000000.\nSet Printing Depth 1000000.\n")
+
+    def render(chunk, off):
+        out = []
+        for i, (_k, t) in enumerate(chunk):
+            out.append(f"Definition m{off + i} : omodel := {t}.\n"
+                       f"Eval vm_compute in (annot_consistent m{off + i}, annot_inconsistent_at m{off + i}, rule_applies m{off + i}, derived_count m{off + i}).\n")
+        return "".join(out)
+    res = common.coq_eval_batches(ctx, "c08_models", header, terms, render, per_file=25)
+    out = {}
+    ok_all = True
+    pos = 0
+    for ok, txt in res:
+        chunk = terms[pos:pos + 25]
+        pos += 25
+        blocks = re.findall(r"=\s*\((true|false),\s*(\[.*?\]|nil),\s*(\d+)(?:%nat)?,\s*(\d+)(?:%nat)?\)\s*:", txt.replace("\n", " "))
+        if not ok or len(blocks) != len(chunk):
+            ok_all = False
+            ctx.coq_models_log = txt[-1500:]
+            continue
+        for (k, _t), (c, off, ra, dc) in zip(chunk, blocks):
+            offenders = re.findall(r'\("([^"]*)"(?:%string)?,\s*"([^"]*)"(?:%string)?\)', off)
+            out[k] = (c == "true", offenders, int(ra), int(dc))
+    return ok_all, out
+
+
+# ====================================================================== run / replay
+def run(ctx):
+    ctx.level = "translation_validation"
+    ctx.trusted_base = [
+        "Coq 8.16.1 kernel; vm_compute (no native_compute); no axioms",
+        "tools/units/c08_units.py: generic control-flow translation + per-function expression table (fails closed on any source "
+        "change) and the PRELUDE text of gen/GenShapes.v (meaning of isinstance / int() / str() / loops on the dims an ir.Shape "
+        "stores); validated on this run against the running Python on every dim-kind combination up to rank 2 (pairs), rank-1 "
+        "triples and random rank<=3 tuples",
+        "hand models Annot.refresh_gen / Annot.loosen / Annot.is_scalar_const tied differentially to the real functions on small onnx_ir graphs",
+        "tools/onnx2coq.py (ModelProto -> Onnx.omodel) for the checker run on real exports",
+        "onnxruntime 1.30 CPU (graph optimisations disabled) as the run-time reference; onnx protobuf reader",
+        "ONNX operator shape rules as transcribed in Annot.rule_on (elementwise unary, multidirectional broadcast, Transpose, "
+        "Reshape with constant positive target) - cross-checked by the run-time validation of the same exports",
+    ]
+    common.build_props(ctx, "C08", GEN_UNITS)
+    evals = 0
+    try:
+        n1, distinct = tie_translated(ctx)
+        evals += n1
+    except Exception:  # noqa
+        ctx.oblige("tie:translated-vs-python", False, "tie", traceback.format_exc()[-1500:])
+        distinct = 0
+    skip = True
+    try:
+        skip = probe_refresh_skips_scalars()
+        evals += tie_refresh(ctx, skip)
+    except Exception:  # noqa
+        ctx.oblige("tie:refresh-model", False, "tie", traceback.format_exc()[-1500:])
+    try:
+        evals += tie_loosen(ctx)
+    except Exception:  # noqa
+        ctx.oblige("tie:loosen-model", False, "tie", traceback.format_exc()[-1500:])
+    ctx.coverage["refresh_model_in_force"] = "unchanged tree: one-element constants of any rank are skipped" if skip else \
+        "repaired: one-element constants take part in the broadcast"
+
+    # ---- the refuted theorem on the REAL code: the witness through the real optimizer
+    if skip:
+        try:
+            w = refresh_witness_real()
+            if w is not None:
+                ctx.violate("refresh:scalar-const-of-higher-rank:optimize_graph", w, {"kind": "refresh_witness"})
+        except Exception:  # noqa
+            ctx.assumptions.append("refresh witness through optimize_graph could not be replayed: " + traceback.format_exc()[-300:])
+
+    # ---- (b) + (c) on real exports
+    n_reg = 110 if ctx.tier == "quick" else 700
+    t0 = time.time()
+    results = run_corpus(n_reg, ctx.seed, ctx.tier)
+    t_corpus = time.time() - t0
+    report_corpus(ctx, results, "default")
+    if ctx.tier != "quick":
+        r2 = run_corpus(150, ctx.seed + 1, ctx.tier, overrides={"enable_double_precision": True}, own=True)
+        report_corpus(ctx, r2, "x64")
+    ctx.coverage["corpus_wall_s"] = round(t_corpus, 1)
+    # ---- proved checker inside Coq on the converted exports
+    models = [(r["key"], r["model"]) for r in results if r.get("model") and len(r["model"]) < (64 << 20)]
+    t0 = time.time()
+    ok, verdicts = coq_annot_consistent(ctx, models)
+    ctx.oblige(f"coq:annot_consistent-evaluated-on-exports({len(verdicts)}/{len(models)})", ok and len(verdicts) == len(models), "tie",
+               getattr(ctx, "coq_models_log", ""))
+    n_rules = sum(v[2] for v in verdicts.values())
+    n_derived = sum(v[3] for v in verdicts.values())
+    for key, (c, offenders, _ra, _dc) in sorted(verdicts.items()):
+        if not c:
+            for op, name in offenders[:3] or [("?", "?")]:
+                ctx.violate(f"annot:{op}:static-rule:{key}",
+                            f"annot_consistent = false: the declared static shape of {name} (output of {op}) is not what the operator's shape "
+                            f"rule gives for the declared static operand shapes", {"kind": "export", "case": key, "value": name})
+    ctx.coverage["coq_checker"] = {"models": len(verdicts), "consistent": sum(1 for v in verdicts.values() if v[0]),
+                                   "nodes_where_a_rule_applied": n_rules, "annotations_entailed_from_graph_inputs(derive)": n_derived,
+                                   "wall_s": round(time.time() - t0, 1)}
+    ctx.coverage["evaluations"] = evals + ctx.coverage.get("runtime_values_checked", 0)
+    ctx.coverage["distinct_nontrivial"] = distinct + ctx.coverage.get("distinct_producer_ops", 0)
+    ctx.coverage["rule"] = ("ties: every pair of shapes up to rank 2 over dims {1,2,3,B,C,unknown}, rank-1 triples, seeded random rank<=3 tuples; "
+                            "refresh: all operand pairs of a 19-operand pool + random triples; exports: deterministic spread of the registry + "
+                            "hand-written programs; non-trivial = distinct (operand shapes, result) of the broadcast helper + distinct producer "
+                            "operators whose annotated outputs were observed at run time")
+    ctx.assumptions += [
+        "run-time validation covers the top-level graph, function bodies (run stand-alone under their own declared input annotations; "
+        "call-site argument annotations compared statically with the formal annotations) and Loop bodies at depth 1 (through extra scan "
+        "outputs; ints/rank/dtype only). If/Scan bodies and deeper nesting are not observed at run time.",
+        "symbolic dims: a dim_param is a claim that all occurrences in one graph take the same extent in one run and, for symbols of the "
+        "graph inputs, the bound extent; runs that onnxruntime rejects for a binding (e.g. a constraint among symbols) are counted, not judged",
+        "dims of an onnx_ir.Shape are int | SymbolicDim(str) | SymbolicDim(None) (ir.Shape normalises None/str/np.integer) - the universe of the translation",
+        "dtype side of _copy_shape_dtype / _maybe_promote_value_to_double is validated at run time only (dtype of every annotated value), not modelled",
+    ]
+    return ctx
+
+
+def refresh_witness_real():
+    """Add(x:[3], c:[1,1] const) -> y annotated [1,3], y a graph output, through the real optimize_graph"""
+    import onnx
+    import onnx_ir as ir
+    from jax2onnx.converter import ir_optimizations as opt
+    x = ir.val("x", ir.DataType.FLOAT, (3,))
+    c = ir.val("c", ir.DataType.FLOAT, (1, 1), const_value=ir.tensor(np.ones((1, 1), np.float32)))
+    y = ir.val("y", ir.DataType.FLOAT, (1, 3))
+    g = ir.Graph(name="g", inputs=[x], outputs=[y], nodes=[ir.Node(op_type="Add", domain="", inputs=[x, c], outputs=[y], name="a")],
+                 initializers=[c], opset_imports={"": 21})
+    m = ir.Model(g, ir_version=10)
+    opt.optimize_graph(m)
+    p = ir.to_proto(m)
+    decl = [d.dim_value for d in p.graph.output[0].type.tensor_type.shape.dim]
+    if decl == [1, 3]:
+        return None
+    try:
+        onnx.checker.check_model(p, full_check=True)
+        chk = "accepted by onnx.checker"
+    except Exception as e:  # noqa
+        chk = "onnx.checker(full_check) rejects: " + str(e).strip().split("\n")[-1][:160]
+    return (f"optimize_graph re-annotates the graph output of Add(x:[3], c:[1,1] initializer) from [1,3] to {decl} "
+            f"(run-time shape [1,3]); {chk}")
+
+
+def report_corpus(ctx, results, label):
+    tot = new_stats()
+    errs = [r for r in results if r.get("error")]
+    post_tot = {}
+    seen_keys = set()
+    n_val = 0
+    failed_runs = []
+    for r in results:
+        key = r["key"]
+        p = r.get("post")
+        if p:
+            if p.get("error"):
+                ctx.oblige(f"postprocess-snapshot:{key}", False, "tie", p["error"])
+            else:
+                for k, x in p["stats"].items():
+                    if isinstance(x, dict):
+                        d = post_tot.setdefault(k, {})
+                        for kk, xx in x.items():
+                            d[kk] = d.get(kk, 0) + xx
+                    else:
+                        post_tot[k] = post_tot.get(k, 0) + x
+                for pr in p["problems"][:3]:
+                    kind, path, name, b, a = pr
+                    ctx.violate(f"postprocess:{kind}:{key}", f"postprocess_ir_model changed the annotation of {name} in graph {path} from {b} to {a} ({kind})",
+                                {"kind": "export", "case": key, "value": name})
+        v = r.get("val")
+        if not v:
+            continue
+        if "error" in v:
+            ctx.oblige(f"runtime-validation:{key}", False, "tie", v["error"])
+            continue
+        n_val += 1
+        for k, x in v["stats"].items():
+            if k == "ops":
+                for o, c in x.items():
+                    tot["ops"][o] = tot["ops"].get(o, 0) + c
+            else:
+                tot[k] = tot.get(k, 0) + x
+        failed_runs += [n for n in v["notes"] if "failed" in n][:2]
+        grouped = {}
+        for c in v["contradictions"]:
+            kind, op, name, what, _decl, _obs, binding, target = c
+            grouped.setdefault((op, kind), []).append((name, what, binding, target))
+        for (op, kind), lst in grouped.items():
+            vk = f"annot:{op}:{kind}:{key}"
+            if vk in seen_keys:
+                continue
+            seen_keys.add(vk)
+            name, what, binding, target = lst[0]
+            ctx.violate(vk, f"{target}: value {name} (output of {op}): {what}" + (f" [binding {binding}]" if binding else "") +
+                        (f" (+{len(lst) - 1} more observations)" if len(lst) > 1 else ""),
+                        {"kind": "export", "case": key, "value": name, "binding": binding, "target": target, "overrides": label})
+        for c in v.get("callsite_mismatches", [])[:3]:
+            why, fname, where, formal, a, actual, b = c
+            ctx.violate(f"annot:{fname}:callsite-{why}:{key}",
+                        f"call of function {fname} in {where}: formal {formal} is declared {a} inside the function but the argument/result {actual} is declared {b}",
+                        {"kind": "export", "case": key, "value": actual})
+    ops = tot.pop("ops")
+    cov = ctx.coverage
+    cov[f"exports_{label}"] = {"cases": len(results), "export_errors": len(errs), "validated": n_val, **tot,
+                               "producer_ops_seen": len(ops), "top_ops": sorted(ops.items(), key=lambda kv: -kv[1])[:25],
+                               "failed_run_samples": failed_runs[:5]}
+    cov[f"postprocess_{label}"] = post_tot
+    cov["runtime_values_checked"] = cov.get("runtime_values_checked", 0) + tot["values"]
+    cov["distinct_producer_ops"] = max(cov.get("distinct_producer_ops", 0), len(ops))
+    ctx.oblige(f"exports-{label}:some-values-validated", tot["values"] > 0 and n_val > 0, "tie", f"{n_val} models, {tot['values']} values")
+    ctx.oblige(f"postprocess-{label}:snapshots-taken", post_tot.get("values", 0) > 0, "tie", str(post_tot)[:300])
+    if label == "default":
+        ctx.samples = [{"case": r["key"], "values": r["val"]["stats"]["values"], "runs": r["val"]["stats"]["runs"],
+                        "dims_checked": r["val"]["stats"]["dim_checked"], "symbols_checked": r["val"]["stats"]["sym_checked"]}
+                       for r in results if r.get("val") and "stats" in r["val"]][:12]
+
+
+def replay(path):
+    r = json.load(open(path))
+    rep = r.get("replay") or {}
+    if rep.get("kind") == "refresh_witness":
+        w = refresh_witness_real()
+        print(w or "the witness is annotated correctly now")
+        return 1 if w else 0
+    if rep.get("kind") == "export":
+        case = rep["case"]
+        import exports
+        if case.startswith("reg:"):
+            idx = next(i for i, tp in enumerate(exports.registry_items()) if exports.tp_key(tp) == case)
+            job = ("reg", idx, {}, "thorough", 0)
+        elif case.startswith("x:"):
+            job = ("extra", case, {}, "thorough", 0)
+        else:
+            job = ("own", case, {}, "thorough", 0)
+        res = _worker(job)
+        print("export error:", res["error"])
+        bad = 0
+        if res.get("val") and "contradictions" in res["val"]:
+            for c in res["val"]["contradictions"]:
+                print("CONTRADICTION", c[0], c[1], c[2], c[3], c[6], c[7])
+                bad += 1
+            for c in res["val"]["callsite_mismatches"]:
+                print("CALLSITE", c)
+                bad += 1
+        if res.get("post") and res["post"].get("n_problems"):
+            print("POSTPROCESS", res["post"]["problems"])
+            bad += 1
+        return 1 if bad else 0
+    print("nothing to replay")
+    return 0
